@@ -585,7 +585,8 @@ class StubsStringGenerator:
             # Skip self parameter for functions
             if is_instance_method and not first_loop_skipped:
                 first_loop_skipped = True
-                continue
+                if parameter.assigned_by == ParameterAssignment.IMPLICIT:
+                    continue
 
             assigned_by = parameter.assigned_by
             type_string = ""
